@@ -168,6 +168,9 @@ pub fn program_shape(p: &crate::jxlgen::Program) -> String {
         if f.noise.is_some() {
             flags.insert("noise");
         }
+        if f.kind == crate::jxlgen::FrameKind::LfFrame {
+            flags.insert("lff");
+        }
         if f.blend.mode != crate::jxlgen::BlendMode::Replace {
             flags.insert("blend");
         }
@@ -214,6 +217,10 @@ impl StreamCase {
         }
         if has("splines") {
             class.push_str("+splines");
+        }
+        let lff = self.program.as_ref().and_then(|p| p.get("frames")).and_then(|f| f.as_array()).map(|fs| fs.iter().any(|f| f.get("kind").and_then(|k| k.as_str()) == Some("LfFrame"))).unwrap_or(false);
+        if lff {
+            class.push_str("+lff");
         }
         class
     }
